@@ -24,7 +24,7 @@ SPEC = {
     "assumptions": ["vlib/avm.py semantics", "baseline = unoptimised scratch-convention compilation of the same program (C01/C02 judge the baseline itself)"],
     "min_evaluations": {"quick": 10000, "thorough": 150000},
     "must_reach": ["agree", "reused_options_object", "corpus_agree", "corpus_approve", "optimizer_deleted_accesses", "setting_ss1_fp0", "setting_ss0_fp1", "setting_ss1_fp1", "cross_version_agree", "stack_traces_compared"],
-    "shard_timeout": {"quick": 600, "thorough": 7200},
+    "shard_timeout": {"quick": 2400, "thorough": 14400},
 }
 
 
